@@ -42,7 +42,10 @@ def run_one(prop, m, jobs=4):
         env = dict(os.environ)
         env["PYVC_REPLAY_DIR"] = os.path.join(scratch, "replay")
         env["PYVC_FAIL_FAST"] = "1"
-        p = subprocess.run(cmd, capture_output=True, text=True, cwd=VERIF, timeout=1800, env=env)
+        try:
+            p = subprocess.run(cmd, capture_output=True, text=True, cwd=VERIF, timeout=3600, env=env)
+        except subprocess.TimeoutExpired:
+            return False, {"exit": "timeout", "failed": [], "tail": ["mutant run exceeded 3600 s (undecided, counted as a survivor)"]}
         killed = p.returncode == 1 and "VIOLATION" in p.stdout
         failed = [l.strip() for l in p.stdout.splitlines() if l.strip().startswith("failed obligation")]
         return killed, {"exit": p.returncode, "failed": failed[:3],
